@@ -184,9 +184,9 @@ func TestB2C20Prefixes(t *testing.T) {
 					if st.ref != g.ref || len(st.filters) != 0 || (n-g.end)%7 != 0 {
 						continue
 					}
-					if len(st.data) > 0 && st.data[len(st.data)-1] == '\r' {
+					if len(st.data) >= 1024 && st.data[len(st.data)-1] == '\r' {
 						// data ending in a bare CR followed by the writer's LF before endstream reads
-						// as a CR LF end-of-line marker when the length object is not available:
+						// as a CR LF end-of-line marker when the (indirect) length object is not available:
 						// inherently ambiguous, outside what a prefix can give up
 						continue
 					}
